@@ -64,6 +64,7 @@ type duplex struct {
 	peerDone   bool   // the peer will not read any more
 	onIdle     func() // called (once) when the server blocks in Read with an empty queue
 	async      bool   // server -> peer writes are only queued (a live peer reads them when it wants)
+	expired    bool   // a Read has hit the timeout marker: the deadline is over until it is set again
 }
 
 func newDuplex(log *evlog) *duplex {
@@ -81,6 +82,12 @@ func (d *duplex) Read(b []byte) (int, error) {
 		}
 		if len(b) == 0 {
 			return 0, nil
+		}
+		if len(d.in) > 0 && len(d.in[0]) == 0 {
+			// the timeout marker "TO": the read deadline expires here; reads fail until the deadline is set again
+			// (SetReadDeadline removes the marker), after which the rest of the script arrives
+			d.expired = true
+			return 0, timeoutErr{}
 		}
 		if len(d.in) > 0 {
 			d.srvWaiting = false
@@ -166,6 +173,11 @@ func (d *duplex) SetReadDeadline(t time.Time) error {
 	defer d.mu.Unlock()
 	if d.closed {
 		return net.ErrClosed
+	}
+	if d.expired && !t.IsZero() && len(d.in) > 0 && len(d.in[0]) == 0 {
+		// a new deadline: the connection is usable again, what the peer sends next will be read
+		d.expired = false
+		d.in = d.in[1:]
 	}
 	return nil
 }
